@@ -73,6 +73,13 @@ func dbsimGen(r *rand.Rand, mode string, thorough bool) dbCase {
 			// one big early value so that the oldest table exceeds the size limit
 			prog = append([]dbOp{{Kind: "put", Key: 0, ValLen: int(opts.MaxSize) + 100}, {Kind: "put", Key: 1 % nkeys, ValLen: 40}}, prog...)
 		}
+		if mode == "lineage" && r.Intn(3) == 0 {
+			// deletes of the empty key: its tombstone sorts in front of every table it is flushed into
+			for n := 1 + r.Intn(3); n > 0; n-- {
+				at := r.Intn(len(prog) + 1)
+				prog = append(prog[:at], append([]dbOp{{Kind: "delempty"}}, prog[at:]...)...)
+			}
+		}
 		for k := 0; k < nkeys; k++ { // and a sweep at the end
 			prog = append(prog, dbOp{Kind: "get", Key: k})
 		}
